@@ -37,8 +37,9 @@ func (*c04) UsesModel() bool { return true }
 // size (so that short inputs cross chunk boundaries) and records the calls made.
 type chunkShim struct {
 	ociregistry.Interface
-	min int
-	log []string
+	min   int
+	log   []string
+	total int // bytes the registry has taken so far
 }
 
 type shimWriter struct {
@@ -51,6 +52,7 @@ func (w *shimWriter) Write(p []byte) (int, error) {
 	n, err := w.BlobWriter.Write(p)
 	if err == nil {
 		w.s.log = append(w.s.log, "write:"+strconv.Itoa(n))
+		w.s.total += n
 	}
 	return n, err
 }
@@ -110,6 +112,8 @@ func throttleNth(n int, armed *atomic.Bool, h http.Handler) http.Handler {
 }
 
 type upSession struct {
+	recovered bool
+	written   []byte // what the successful Writes of the session have accepted, in order
 	armed   atomic.Bool
 	flakyAt int
 	stack  string
@@ -177,6 +181,7 @@ func (*c04) Impl(c Case) []string {
 				}
 				return "ok"
 			case "start":
+				u.written = nil
 				w, err := u.reg.PushBlobChunked(ctx, u.repo, u.hint)
 				if err != nil {
 					return "err " + errClass(err)
@@ -195,13 +200,43 @@ func (*c04) Impl(c Case) []string {
 				if err != nil && n == 0 && u.flakyAt > 0 && errors.Is(err, ociregistry.ErrTooManyRequests) {
 					n, err = u.w.Write(p) // turned down before the registry took anything: the caller tries again
 				}
+				if err == nil {
+					u.written = append(u.written, data...)
+				}
 				scribble(p) // io.Writer: the chunk belongs to the caller again once Write returns
 				if err != nil {
 					return "err " + errClass(err)
 				}
 				return "n " + strconv.Itoa(n)
 			case "closeresume":
+				// in flaky mode the request Close makes may be the one that is turned down (unless the
+				// registry holds exactly one byte: asking it for the offset is then ambiguous, which the
+				// property excludes). The caller closes again; told that all is well it carries on, told
+				// again that it is not it asks the registry where the upload stands and writes the rest anew.
+				closeArmed := u.flakyAt > 0 && u.shim != nil && u.shim.total != 1
+				if closeArmed {
+					u.armed.Store(true)
+				}
 				err := u.w.Close()
+				u.armed.Store(false)
+				if err != nil && closeArmed && errors.Is(err, ociregistry.ErrTooManyRequests) {
+					if err2 := u.w.Close(); err2 != nil {
+						w, e := u.reg.PushBlobChunkedResume(ctx, u.repo, u.w.ID(), -1, u.w.ChunkSize())
+						if e != nil {
+							return "err " + errClass(e)
+						}
+						if at := int(w.Size()); at <= len(u.written) {
+							if _, e := w.Write(append([]byte{}, u.written[at:]...)); e != nil {
+								return "err " + errClass(e)
+							}
+						}
+						u.w = w
+						u.recovered = true
+						err = u.w.Close()
+					} else {
+						err = nil
+					}
+				}
 				if err != nil {
 					return "err " + errClass(err)
 				}
@@ -229,6 +264,13 @@ func (*c04) Impl(c Case) []string {
 				if u.shim == nil || u.stack != "wire1" {
 					return "skip-model"
 				}
+				if u.recovered {
+					// the caller asked the registry where the upload stood after a Close that kept failing:
+					// one more call behind the server than the fault-free model makes
+					u.shim.log = nil
+					u.recovered = false
+					return "skip-model"
+				}
 				lg := mergeWrites(u.shim.log)
 				u.shim.log = nil
 				return "log " + strings.Join(lg, " ")
@@ -240,6 +282,10 @@ func (*c04) Impl(c Case) []string {
 					return "err " + errClass(err)
 				}
 				if _, err := w.Write([]byte(data)); err != nil {
+					// a caller that simply tries again gets the same refusal: being refused once is not a licence
+					if _, err2 := w.Write([]byte(data)); err2 == nil {
+						return "err " + errClass(err) + " but accepted when repeated"
+					}
 					return "err " + errClass(err)
 				}
 				if err := w.Close(); err != nil {
